@@ -92,11 +92,14 @@ theorem marshal_extra_collision_rejected (st : Store) (rec : Go.MRec) (id : Node
 /-- a Schema whose only non-zero field is Extra (at least one entry; keys that are no keyword; values
     already in the form encoding/json writes, i.e. object keys sorted at every depth) is written as the
     object of its entries in ascending key order, and reading that object back gives a Schema whose only
-    non-zero field is Extra with the same entries (as a map: up to order) -/
+    non-zero field is Extra with the same entries (as a map: up to order).
+    H_D4 (`hf`): no Extra key is a case variant of a keyword — encoding/json would decode such a member into
+    the keyword's field as well (known finding D4, which the model reproduces). -/
 theorem extra_roundtrip (st : Store) (mrec : Go.MRec) (urec : Go.URec) (id : NodeId)
     (es : List (String × Json)) (st2 : Store)
     (hn : st.get? id = some { extra := some es }) (hne : es ≠ [])
-    (hk : ∀ e, e ∈ es → e.1 ∉ Go.knownKeys) (hs : ∀ e, e ∈ es → Go.sortJson e.2 = e.2) :
+    (hk : ∀ e, e ∈ es → e.1 ∉ Go.knownKeys) (hf : ∀ e, e ∈ es → Go.isFoldedKey e.1 = false)
+    (hs : ∀ e, e ∈ es → Go.sortJson e.2 = e.2) :
     Go.marshalStep st mrec id = .ok (.obj (Go.sortKV es)) ∧
     Go.unmarshalStep urec (.obj (Go.sortKV es)) st2 = .ok (st2.alloc { extra := some (Go.sortKV es) }) ∧
     (Go.sortKV es).Perm es := by
@@ -110,6 +113,8 @@ theorem extra_roundtrip (st : Store) (mrec : Go.MRec) (urec : Go.URec) (id : Nod
       exact hne hp.symm.eq_nil
     · intro e he
       exact hk e (hp.mem_iff.1 he)
+    · intro e he
+      exact hf e (hp.mem_iff.1 he)
 
 /-! ## the scalar fragment of the round trip -/
 
@@ -124,7 +129,9 @@ theorem extra_roundtrip (st : Store) (mrec : Go.MRec) (urec : Go.URec) (id : Nod
     encoding/json writes: whatever MarshalJSON writes, UnmarshalJSON reads back as the same Schema, except
     that `required: []` (non-nil, empty: omitted by omitempty) comes back as nil (`Go.normReq`) and Extra
     comes back with its entries in ascending key order — the same map — or nil if empty (`Go.normExtra`).
-    `urec` / `mrec` are arbitrary: no subschema is visited. -/
+    `urec` / `mrec` are arbitrary: no subschema is visited.
+    H_D4 (`hf`): no Extra key is a case variant of a keyword (e.g. "Title") — encoding/json would decode such
+    a member into the keyword's field as well (known finding D4, which the model reproduces). -/
 theorem roundtrip_scalar_fragment (st : Store) (mrec : Go.MRec) (urec : Go.URec) (id : NodeId) (st2 : Store)
     (j : Json) (n : Node)
     (hs : { n with defs := none, definitions := none, dependencySchemas := none, dependencyStrings := none,
@@ -140,11 +147,12 @@ theorem roundtrip_scalar_fragment (st : Store) (mrec : Go.MRec) (urec : Go.URec)
     (h4 : Go.InInt32 n.maxItems) (h5 : Go.InInt32 n.minContains) (h6 : Go.InInt32 n.maxContains)
     (h7 : Go.InInt32 n.minProperties) (h8 : Go.InInt32 n.maxProperties)
     (hk : ∀ e, e ∈ n.extra.getD [] → e.1 ∉ Go.knownKeys)
+    (hf : ∀ e, e ∈ n.extra.getD [] → Go.isFoldedKey e.1 = false)
     (hsj : ∀ e, e ∈ n.extra.getD [] → Go.sortJson e.2 = e.2)
     (hn : st.get? id = some n) (hj : Go.marshalStep st mrec id = .ok j) :
     Go.unmarshalStep urec j st2 =
       .ok (st2.alloc { n with required := Go.normReq n.required, extra := Go.normExtra n.extra }) :=
-  Go.scalarOnly_roundtrip st mrec urec id st2 j n hs hT h1 h2 h3 h4 h5 h6 h7 h8 hk hsj hn hj
+  Go.scalarOnly_roundtrip st mrec urec id st2 j n hs hT h1 h2 h3 h4 h5 h6 h7 h8 hk hf hsj hn hj
 
 /-- `normReq` only changes the non-nil empty slice -/
 theorem normReq_eq (r : Option (List String)) (h : r ≠ some []) : Go.normReq r = r := by
@@ -184,7 +192,7 @@ theorem roundtrip_scalar_exact (st : Store) (mrec : Go.MRec) (urec : Go.URec) (i
     (hn : st.get? id = some n) (hj : Go.marshalStep st mrec id = .ok j) :
     Go.unmarshalStep urec j st2 = .ok (st2.alloc n) := by
   have h := Go.scalarOnly_roundtrip st mrec urec id st2 j n hs hT h1 h2 h3 h4 h5 h6 h7 h8
-    (by rw [hx]; intro e he; cases he) (by rw [hx]; intro e he; cases he) hn hj
+    (by rw [hx]; intro e he; cases he) (by rw [hx]; intro e he; cases he) (by rw [hx]; intro e he; cases he) hn hj
   rw [normReq_eq _ hr, hx] at h
   have e : ({ n with required := n.required, extra := Go.normExtra none } : Node) = n := by
     have : Go.normExtra none = n.extra := by rw [hx]; rfl
@@ -279,6 +287,10 @@ def exExtra : List (String × Json) :=
 
 example : exExtra ≠ [] := by decide
 example : ∀ e, e ∈ exExtra → e.1 ∉ Go.knownKeys := by decide
+/-- H_D4 holds of them: none is a case variant of a keyword ("examplesX" is not one of "examples") -/
+example : ∀ e, e ∈ exExtra → Go.isFoldedKey e.1 = false := by decide
+/-- … and it is a real restriction: "Examples" is no keyword but a case variant of one -/
+example : "Examples" ∉ Go.knownKeys ∧ Go.isFoldedKey "Examples" = true := by decide
 example : ∀ e, e ∈ exExtra → Go.sortJson e.2 = e.2 := by
   intro e he
   simp only [exExtra, List.mem_cons, List.not_mem_nil, or_false] at he
@@ -288,6 +300,7 @@ example (rec : Go.MRec) :
     Go.marshalStep #[{ extra := some exExtra }] rec 0 =
       .ok (.obj [("examplesX", .bool false), ("x-a", .str "v"), ("x-b", .obj [("a", .num 1), ("b", .arr [.null])])]) :=
   (extra_roundtrip #[{ extra := some exExtra }] rec (fun _ _ => .fuel) 0 exExtra #[] rfl (by decide) (by decide)
+    (by decide)
     (by intro e he
         simp only [exExtra, List.mem_cons, List.not_mem_nil, or_false] at he
         rcases he with rfl | rfl | rfl <;> rfl)).1
@@ -332,7 +345,7 @@ example (mrec : Go.MRec) (urec : Go.URec) (st2 : Store) (j : Json)
     { exScalar with extra := some exExtra } rfl (by decide)
     (by intro i h; cases h; decide) (by intro i h; cases h; decide) (by intro i h; cases h)
     (by intro i h; cases h) (by intro i h; cases h) (by intro i h; cases h) (by intro i h; cases h)
-    (by intro i h; cases h) (by decide)
+    (by intro i h; cases h) (by decide) (by decide)
     (by intro e he
         simp only [exExtra, Option.getD_some, List.mem_cons, List.not_mem_nil, or_false] at he
         rcases he with rfl | rfl | rfl <;> rfl) rfl hj
